@@ -283,6 +283,16 @@ def c04(res, tier, seed, replay):
                 runs.append({"name": f"flat-{m}-{ctag}-{s}",
                              "args": ["-mode", "cache", "-config", f"flat-{m}", "-cache", cache, "-seed", seed * 100 + s,
                                       "-hist", hist, "-batches", batches, "-rank", rank, "-panel-every", 0]})
+    # trained quantisers (product: >= 1000 points; learned binary threshold): the model does not recompute
+    # the quantised distance, the warm and the cold answer are compared with each other (FlatPair)
+    for s in range(1 if tier == "quick" else 3):
+        runs.append({"name": f"flat-pq-{s}", "timeout": 900,
+                     "args": ["-mode", "cache", "-insert-only", "-config", "flat-pq", "-maxbatch", 400, "-seed", seed * 100 + 80 + s, "-hist", 1,
+                              "-batches", 8, "-rank", 3, "-panel-every", 0]})
+        for cache, ctag in CACHES[::2]:
+            runs.append({"name": f"flat-binlearn-{ctag}-{s}",
+                         "args": ["-mode", "cache", "-config", "flat-binlearn", "-cache", cache, "-seed", seed * 100 + 90 + s, "-hist", 3,
+                                  "-batches", 14, "-rank", 3, "-panel-every", 0]})
     results = drive_and_validate(res, runs)
     for r in results[:2]:
         sample_from_trace_nonempty(res, r["trace"], "Flat", cap=2)
@@ -293,7 +303,8 @@ def c04(res, tier, seed, replay):
                             "table; jaccard within 2e-4); after every batch flat queries (limits 1..75, weights, no / id / leaf / "
                             "tree pre-filters) are answered warm, after eviction and cold on a copy of the file; TLC requires "
                             "each answer to be the exact k nearest (any tie-break) with the right distances and hybrid scores")
-    res.assumptions += ["product quantiser and learned binary thresholds are not exercised by this check",
+    res.assumptions += ["with a trained quantiser (product, learned binary threshold) the quantised distance is not recomputed by the model: "
+                        "warm and cold answers are compared with each other and with the model's candidate set and length",
                         "cosine is judged on unit vectors only (the index computes 1 - dot)"]
 
 
